@@ -98,8 +98,27 @@ def col_variants(rd):
 
 
 # ------------------------------------------------------------------------------------------------ C01.index
+def many_cases(tier):
+    """17..24 subsystems most of which are one-dimensional (cf. seeded change C02-9: bookkeeping that is only right up to 16 subsystems)."""
+    for n in (17, 20, 24):
+        for places in ((3, 12, 13), (0, 1, n - 1), (5, n // 2, n - 2)):
+            rd = [1] * n
+            for pl, v in zip(places, (2, 3, 2)):
+                rd[pl] = v
+            a, b, c = places
+            swap_ab = list(range(n)); swap_ab[a], swap_ab[b] = b, a
+            cyc = list(range(n)); cyc[a], cyc[b], cyc[c] = b, c, a
+            for perm in (swap_ab, cyc, list(range(1, n)) + [0], list(range(n - 1, -1, -1))):
+                for inv in (False, True):
+                    yield {"kind": "vec1d", "rdims": rd, "cdims": None, "perm": perm, "row_only": False, "inv": inv,
+                           "dimform": "flat", "storage": "dense", "entries": "int"}
+                    yield {"kind": "mat", "rdims": rd, "cdims": rd, "perm": perm, "row_only": False, "inv": inv,
+                           "dimform": "flat", "storage": "dense", "entries": "complex"}
+
+
 def index_cases(tier, seed):
     yield from root_cases(tier)
+    yield from many_cases(tier)
     for rd in dims_alphabet(tier):
         n = len(rd)
         R = ti.prod(rd)
@@ -114,6 +133,10 @@ def index_cases(tier, seed):
                         for ent in ("sym", "int", "complex"):
                             yield {"kind": kind, "rdims": rd, "cdims": None, "perm": list(perm), "row_only": False, "inv": inv,
                                    "dimform": dimform, "storage": "dense", "entries": ent}
+                if R >= 2:  # sparse column vectors (n x 1 csr), added after seeded change C01-9
+                    for ent in ("int", "complex"):
+                        yield {"kind": "col", "rdims": rd, "cdims": None, "perm": list(perm), "row_only": False, "inv": inv,
+                               "dimform": "flat", "storage": "csr", "entries": ent}
                 if R < 2:
                     continue
                 for cname, cd in col_variants(rd):
@@ -207,9 +230,13 @@ def index_check(case):
         arg = v.reshape(-1, 1)
     else:
         arg = v.reshape(1, -1)
+    if case["storage"] == "csr":
+        arg = sparse.csr_matrix(arg)
     got, exc = call(permute_systems, arg, list(perm), make_dim_arg(case), False, case["inv"])
     if exc is not None:
         return viol("permute_systems raised on a vector: " + exc_text(exc), site="permute_systems:exception")
+    if sparse.issparse(got):
+        got = got.toarray()
     if not same(np.asarray(got).ravel(), exp):
         return viol("vector output is not the index permutation", site="permute_systems:vector",
                     observed=np.asarray(got).ravel().tolist()[:36], expected=exp.tolist()[:36])
@@ -343,6 +370,17 @@ def swap_cases(tier, seed):
     for d1, d2 in itertools.product((1, 2, 3), repeat=2):
         if d1 * d2 >= 2:
             yield {"rdims": [d1, d2], "cdims": [d1, d2], "sys": None, "kind": "mat", "dimform": "flat", "row_only": False}
+    # ... and on three and four subsystems, where the documented default [1, 2] differs from "first and last" (added after seeded change
+    # C01-10), for operators, vectors and with sparse storage (added after seeded change C01-9: sparse vectors)
+    for rd in ([2, 3, 2], [3, 2, 2], [2, 2, 3], [2, 2, 2, 2], [2, 3, 2, 3], [1, 2, 3]):
+        for kind in ("mat", "vec1d", "col"):
+            yield {"rdims": rd, "cdims": rd if kind == "mat" else None, "sys": None, "kind": kind, "dimform": "flat", "row_only": False}
+    for rd in ([2, 3], [3, 2], [2, 3, 2], [2, 2, 2, 2]):
+        n = len(rd)
+        for a, b in itertools.permutations(range(1, n + 1), 2):
+            for kind in ("mat", "col"):
+                yield {"rdims": rd, "cdims": rd if kind == "mat" else None, "sys": [a, b], "kind": kind, "dimform": "flat", "row_only": False,
+                       "sysform": "list", "storage": "csr"}
 
 
 def swap_check(case):
@@ -376,21 +414,26 @@ def swap_check(case):
         exp = v[ti.gather_for_perm(rd, perm)]
         arg0 = v if kind == "vec1d" else v.reshape(-1, 1)
     x_snap = arg0.copy()
+    dense0 = arg0
+    if case.get("storage") == "csr":
+        arg0 = sparse.csr_matrix(arg0)
     for attempt in (1, 2):  # the same argument objects are passed twice: a call must not consume or alter its arguments
         if kind == "mat":
             got, exc = call(swap, arg0, sys_arg, dim_arg, case["row_only"]) if sys_ is not None else call(swap, arg0, None, dim_arg)
+        elif sys_ is None:
+            got, exc = call(swap, arg0, None, dim_arg)
         else:
             got, exc = call(swap, arg0, sys_arg, dim_arg)
         if exc is not None:
             return viol(f"swap raised on an in-domain configuration (call {attempt} with the same arguments): " + exc_text(exc),
                         site="swap:exception:" + form)
-        g = np.asarray(got)
+        g = np.asarray(got.toarray() if sparse.issparse(got) else got)
         if kind != "mat":
             g = g.ravel()
         if not same(g, exp):
             return viol(f"swap is not the transposition special case of permute_systems' reference (call {attempt})", site="swap:value:" + form)
         now = (None if sys_arg is None else list(np.asarray(sys_arg).tolist()), None if dim_arg is None else np.asarray(dim_arg).tolist())
-        if now != snap or not same(arg0, x_snap):
+        if now != snap or not same(arg0.toarray() if sparse.issparse(arg0) else arg0, x_snap):
             return viol("swap modified one of the caller's arguments (sys / dim / input)", site="swap:aliasing", observed=now, expected=snap)
     return ok(len(set(rd)) > 1 or n > 2, calls=2)
 
